@@ -105,6 +105,18 @@ def constructed():
                 t = rng.choice((s, 0, 18, rng.randrange(0, 19)))
                 for op in OPS:
                     out.append("%s * %s %s" % (op, G.fD(c, s), G.fD(d, t)))
+    # limb carries and borrows: low 64-bit limbs that sum to 2^64 - 1 / 2^64 / 2^64 + 1, low limbs ordered against the
+    # high limbs; all-ones / single-bit / empty limbs
+    for a, b in G.limb_carry_pairs(rng, 80):
+        s = rng.randrange(0, 19)
+        for sa, sb in ((1, 1), (1, -1), (-1, 1), (-1, -1)):
+            out.append("%s * %s %s" % (rng.choice(OPS), G.fD(sa * a, s), G.fD(sb * b, s)))
+    lg = G.limb_grid()
+    for a in lg:
+        for b in rng.sample(lg, 6):
+            s = rng.randrange(0, 19)
+            t = rng.choice((s, s, rng.randrange(0, 19)))
+            out.append("%s * %s %s" % (rng.choice(OPS), G.fD(a * rng.choice((1, -1)), s), G.fD(b * rng.choice((1, -1)), t)))
     # coefficients at floor(T / 10^k) +- 2 for the maxima T of the primitive types, re-scaled by exactly 10^k
     for v, k in G.type_scaled_thresholds():
         for p in (0, rng.randrange(0, 19 - k)):
